@@ -373,7 +373,7 @@ class C14(Prop):
             'level, star, aliases; docstring node iff CPython sees a docstring written as one plain string literal. Non-trivial: program '
             'has a function with >=2 parameters, an import alias, a lambda, or a starred/attribute/walrus target.' % (PYV, PYV))
     assumptions = ['the running interpreter of /venv is the reference (in-process ast, tokenize)']
-    budgets = {'quick': 12000, 'thorough': 300000}
+    budgets = {'quick': 12000, 'thorough': 1200000}
     min_nontrivial_fraction = 0.05
 
     def strategy(self, tier):
